@@ -1296,6 +1296,63 @@ def m_prefix_fold(interp, args, kwargs):
     return value
 
 
+# ============================================================================ recursive spec functions
+
+def _ghost_arg(a):
+    """(name part, terms) identifying an argument of a ghost function."""
+    if isinstance(a, SMap):
+        return 'map', a.terms()
+    if isinstance(a, SList):
+        if a.ident is None:
+            raise Unsupported('recursive spec function: a derived list (slice, concatenation, ...) as argument')
+        return 'list:' + a.ident[0], list(a.ident[1])
+    if isinstance(a, Opaque):
+        t = term_of_value(a)
+        if t is None:
+            if a._pv_index:
+                return 'obj:' + a._pv_uid, list(a._pv_index)
+            return 'obj:' + a._pv_uid, []
+        from .api import universe_of
+        return universe_of(a._pv_iface), [t]
+    if isinstance(a, (SOpt, SChoice)):
+        raise Unsupported('recursive spec function: optional / choice argument (resolve it first)')
+    t = term_of_value(a)
+    if t is not None:
+        return 's', [t]
+    if a is None or isinstance(a, (enum.Enum, types.FunctionType, type)):
+        return 'c:%s' % (getattr(a, '__qualname__', None) or repr(a)), []
+    raise Unsupported('recursive spec function: argument %r' % (a,))
+
+
+def call_recursive_spec(interp, fn, args, kwargs):
+    """A boolean spec function marked ``@recursive`` (contracts/common.py): its value is the application of an
+    uninterpreted predicate to the arguments; the defining equation (the body, with the recursive calls left as
+    applications) is assumed for the arguments of every call made outside quantifier bodies."""
+    if kwargs:
+        raise Unsupported('recursive spec function called with keyword arguments')
+    st = interp.st
+    args = [interp.resolve(a) if isinstance(a, (SOpt, SChoice)) else a for a in args]
+    parts = [_ghost_arg(a) for a in args]
+    terms = [t for _, ts in parts for t in ts]
+    name = 'rec.%s@%s' % (fn.__qualname__, '|'.join(p for p, _ in parts))
+    u = z3.Function(name, *([t.sort() for t in terms] + [z3.BoolSort()])) if terms else None
+    app = u(*terms) if terms else z3.Bool(name)
+    active = st.ghost.setdefault('@rec-active', [])
+    done = st.ghost.setdefault('@rec-unfolded', set())
+    key = (name, tuple(z3.simplify(t).sexpr() for t in terms))
+    if fn in active or st.no_fork or key in done:
+        return wrap(app)
+    if not st.scopes:
+        done.add(key)
+    active.append(fn)
+    try:
+        body = interp.truth(interp.call_real_function(fn, args, {}))
+    finally:
+        active.pop()
+    st.assume(app == to_z3(body))
+    return wrap(app)
+
+
 def m_is_opaque(interp, args, kwargs):
     return isinstance(args[0], Opaque)
 
